@@ -172,6 +172,125 @@ static struct cstl_dlist * list_of(const char * s)
     return (i >= 1 && i <= NL) ? &lists[i - 1] : NULL;
 }
 
+/*
+ * bigsort <l> <n> <nkeys> <seed>: list l must be empty.  n elements from a
+ * separate large pool with LCG keys are appended, the list is sorted and the
+ * result is checked here: size, forward traversal (every element exactly
+ * once, non-decreasing), backward traversal is its mirror image, front/back;
+ * then the list is emptied from both ends.  Result `ok ck=<checksum of the
+ * final order>` or `bad <what>`.
+ */
+static void bigsort(struct cstl_dlist * l, size_t n, long nkeys, unsigned long seed)
+{
+    struct elem * big = calloc(n + 2, sizeof(*big));
+    unsigned char * seen = calloc(n + 2, 1);
+    size_t * order = calloc(n + 2, sizeof(*order));
+    unsigned long x = seed % 2147483648UL;
+    unsigned long long ck = 7;
+    const unsigned long long P = 2147483647ULL;
+    const char * what = NULL;
+    const struct elem * last = NULL;
+    const struct cstl_dlist_node * c;
+    size_t i, cnt = 0;
+    const int second = (l == &lists[2]);
+    const size_t off = second ? offsetof(struct elem, n2) : offsetof(struct elem, n);
+
+    if (big == NULL || seen == NULL || order == NULL) {
+        h_stop("bad-op");
+        return;
+    }
+    for (i = 0; i < n; i++) {
+        x = (x * 1103515245UL + 12345UL) % 2147483648UL;
+        big[i].key = (int)((x / 256) % (unsigned long)nkeys);
+        cstl_dlist_push_back(l, &big[i]);
+    }
+    cstl_dlist_sort(l, cmp_elem, H_PRIV(1));
+    if (cstl_dlist_size(l) != n) {
+        what = "size-changed";
+    }
+    for (c = l->h.n; c != &l->h && what == NULL; c = c->n) {
+        const struct elem * e;
+        size_t idx;
+        if (c == NULL) {
+            what = "null-link";
+            break;
+        }
+        e = (const struct elem *)((const char *)c - off);
+        if (e < big || e >= big + n || ((const char *)e - (const char *)big) % sizeof(*big) != 0) {
+            what = "foreign-element";
+            break;
+        }
+        idx = (size_t)(e - big);
+        if (seen[idx]) {
+            what = "element-twice";
+            break;
+        }
+        seen[idx] = 1;
+        if (last != NULL && last->key > e->key) {
+            what = "not-sorted";
+            break;
+        }
+        if (cnt < n) {
+            order[cnt] = idx;
+        }
+        ck = (ck * 1000003ULL + (idx + 1) % P) % P;
+        last = e;
+        if (++cnt > n) {
+            what = "too-many-elements";
+            break;
+        }
+    }
+    if (what == NULL && cnt != n) {
+        what = "elements-lost";
+    }
+    if (what == NULL) {
+        /* back to front: the mirror image */
+        size_t k = n;
+        for (c = l->h.p; c != &l->h; c = c->p) {
+            const struct elem * e;
+            if (c == NULL || k == 0) {
+                what = "backward-traversal-differs";
+                break;
+            }
+            e = (const struct elem *)((const char *)c - off);
+            k--;
+            if (e != &big[order[k]]) {
+                what = "backward-traversal-is-not-the-mirror-image";
+                break;
+            }
+        }
+        if (what == NULL && k != 0) {
+            what = "backward-traversal-too-short";
+        }
+    }
+    if (what == NULL && n > 0
+        && (cstl_dlist_back(l) != last || cstl_dlist_front(l) != &big[order[0]])) {
+        what = "front-or-back-wrong";
+    }
+    if (what == NULL) {
+        for (i = 0; i < n; i++) {
+            const void * e = (i & 1) ? cstl_dlist_pop_back(l) : cstl_dlist_pop_front(l);
+            if (e == NULL) {
+                what = "pop-null-before-empty";
+                break;
+            }
+        }
+        if (what == NULL && (cstl_dlist_pop_front(l) != NULL || cstl_dlist_pop_back(l) != NULL
+                             || cstl_dlist_size(l) != 0)) {
+            what = "not-empty-after-draining";
+        }
+    }
+    if (what != NULL) {
+        outf("bad %s", what);
+        cstl_dlist_init(l, off);
+    } else {
+        outf("ok ck=%llu", ck);
+    }
+    free(order);
+    free(seen);
+    free(big);
+}
+
 static void op(int argc, char ** argv)
 {
     const char * o = argv[0];
@@ -209,6 +328,9 @@ static void op(int argc, char ** argv)
     } else if (!strcmp(o, "sort") && argc == 2 && l) {
         cstl_dlist_sort(l, cmp_elem, H_PRIV(1));
         outf("ok");
+    } else if (!strcmp(o, "bigsort") && argc == 5 && l && cstl_dlist_size(l) == 0
+               && h_size(argv[2]) <= 2000000 && h_int(argv[3]) >= 1) {
+        bigsort(l, h_size(argv[2]), (long)h_int(argv[3]), (unsigned long)h_size(argv[4]));
     } else if (!strcmp(o, "concat") && argc == 3 && l && list_of(argv[2]) && l != list_of(argv[2])) {
         cstl_dlist_concat(l, list_of(argv[2]));
         outf("ok");
